@@ -1326,12 +1326,10 @@ func SelectExpr(query *Query, current Map, expr *sqlparser.SelectExprs, opts ...
 						}
 						data[name] = value
 						// the fused row of a nested select may hold the pending slot of an
-						// ASYNC call: that select resolves it in its own row only
+						// ASYNC call or of an AWAIT: that select resolves it in its own row only
 						if slot, ok := value.(*any); ok {
 							query.postProcessors = append(query.postProcessors, func() error {
-								if current, ok := data[name].(*any); ok && current == slot {
-									data[name] = *slot
-								}
+								resolveSlot(data, name, slot)
 								return nil
 							})
 						}
@@ -1349,27 +1347,7 @@ func SelectExpr(query *Query, current Map, expr *sqlparser.SelectExprs, opts ...
 						if err != nil {
 							return err
 						}
-						// a later select item wrote the same column: that one wins,
-						// exactly as it does for unqualified calls
-						if current, ok := data[name].(*any); !ok || current != valueRaw {
-							return nil
-						}
-
-						value := *valueRaw
-						for {
-							x, ok := value.(*any)
-							if !ok {
-								break
-							}
-							value = *x
-						}
-						// an awaited function that produces no column (SETVAR, SPIN, ...)
-						if _, ok := value.(Ommit); ok {
-							delete(data, name)
-							return nil
-						}
-
-						data[name] = unmarked(value)
+						resolveSlot(data, name, valueRaw)
 						return nil
 					})
 				}
@@ -1378,6 +1356,31 @@ func SelectExpr(query *Query, current Map, expr *sqlparser.SelectExprs, opts ...
 		}
 	}
 	return data, nil
+}
+
+// resolveSlot puts the value that the pending slot of an ASYNC call or of an
+// AWAIT holds by now into the column the slot was written to
+func resolveSlot(data Map, name string, slot *any) {
+	// a later select item wrote the same column: that one wins,
+	// exactly as it does for unqualified calls
+	if current, ok := data[name].(*any); !ok || current != slot {
+		return
+	}
+	// (an AWAIT over an ASYNC call is a slot that holds a slot)
+	value := *slot
+	for {
+		x, ok := value.(*any)
+		if !ok {
+			break
+		}
+		value = *x
+	}
+	// an awaited function that produces no column (SETVAR, SPIN, ...)
+	if _, ok := value.(Ommit); ok {
+		delete(data, name)
+		return
+	}
+	data[name] = unmarked(value)
 }
 
 func SubqueryExpr(query *Query, current Map, expr *sqlparser.Subquery, opts ...ExprOption) (any, error) {
